@@ -596,7 +596,9 @@ impl<'tcx> Cx<'tcx> {
                         mir::AssertKind::OverflowNeg(_) => ("overflow", "Neg".to_string()),
                         mir::AssertKind::DivisionByZero(_) => ("div0", String::new()),
                         mir::AssertKind::RemainderByZero(_) => ("rem0", String::new()),
-                        _ => ("otherassert", String::new()),
+                        mir::AssertKind::MisalignedPointerDereference { .. } => ("ptrcheck", "misaligned".to_string()),
+                        mir::AssertKind::NullPointerDereference => ("ptrcheck", "null".to_string()),
+                        other => ("otherassert", format!("{:?}", std::mem::discriminant(other))),
                     };
                     t.push(("msg", s(mk)));
                     t.push(("op", s(detail)));
